@@ -37,6 +37,8 @@ def canon_fail(msg):
     m = re.match(r"exceeded max_steps bound (\d+)", msg)
     if m:
         return "E stepbound " + m.group(1)
+    # RwLock's internal assertion (reached only while another task's panic is propagating, F12): the model prints it without the state dump
+    msg = re.sub(r"resumed a waiting (Read|Write) thread while the lock was in state .*$", "resumed a waiting thread while the lock was in an incompatible state", msg)
     return "E panic " + re.sub(r"task [^\s()]*\((\d+)\)", r"task TaskId(\1)", msg)
 
 
